@@ -39,6 +39,7 @@ func runC13(l *core.Ledger) {
 	l.Rule("C13-D9", "the text of a handler's status arrives as it was sent: it travels in a proto3 string, so either both sides apply an unconditional encode/decode pair that can carry arbitrary bytes, or nobody rewrites it (then text that is not valid UTF-8 cannot be marshalled: known finding); a rewrite on one side only, or under a content test on one side only, changes some texts")
 	l.Rule("C13-D8", "a decode that can report success has stored a freshly created message of the method's type into msg.Message (never nil on a success return)")
 	l.Rule("C13-D10", "the type of the decoded message is selected by the method name and the direction: every registry call, map lookup or memo consulted for the type that is instantiated into msg.Message is keyed by values that depend on both")
+	l.Rule("C13-D11", "every decode yields a message object of its own: what is stored into msg.Message is created by this decode (New() of the selected type), not an object kept in a table or a package-level variable from an earlier decode")
 	l.Rule("C13-D7", "decoding overwrites: the codec's unmarshal options do not set Merge, or every RecvMsg target is a newMessage result built between two receives")
 	l.Rule("C13-D6", "delivery of a message-carrying response is dominated by the match edge of a comparison of the reply's method with the method recorded in the router at registration")
 
@@ -146,6 +147,13 @@ func runC13(l *core.Ledger) {
 	c13D8(l, r, gum)
 	c13D9(l, r)
 	c13D10(l, r, gum)
+	c13D11(l, r, gum)
+	l.Rule("C13-D12", "what is encoded for a node is the message made for that node (C06-P1 re-run: each node's queue gets a Message of its own whose payload is the caller's request or the per-node result) - an encoding kept in, or reachable from, an envelope that is copied per node makes Marshal return another node's frame")
+	l.With(map[string]string{"C06-P1": "C13-D12"}, func() {
+		for _, ep := range findEntryPoints(l, r, "C13-D12") {
+			c06P1(l, ep)
+		}
+	})
 }
 
 // c13SliceTable verifies the side conditions of the b[mdLen:] entry.
@@ -1045,4 +1053,89 @@ func c13D10(l *core.Ledger, r *rt, gum *ssa.Function) {
 		back(st.Val, 0)
 	})
 	l.Floor("C13-D10", n, 1, "lookups that select the type of the decoded message")
+}
+
+// c13D11: the decoded message is a fresh object. Decoded messages are handed to
+// handlers, quorum functions and callers, who own them from then on; an
+// instance that is handed out twice (a memo of "empty" messages, a reused
+// scratch message) makes a later decode yield whatever a holder of the earlier
+// one has written - not equal to what was encoded.
+func c13D11(l *core.Ledger, r *rt, gum *ssa.Function) {
+	if len(gum.Params) < 3 {
+		return
+	}
+	msg := gum.Params[2]
+	n := 0
+	sx.AllInstrs(gum, func(_ sx.Node, in ssa.Instruction) {
+		st, ok := in.(*ssa.Store)
+		if !ok {
+			return
+		}
+		base, ok := fieldAddrOf(st.Addr, "Message")
+		if !ok || !sx.All(sx.Origins(base), sx.IsParam(msg)) {
+			return
+		}
+		if k, isC := st.Val.(*ssa.Const); isC && k.IsNil() {
+			return
+		}
+		n++
+		var stale []string
+		seen := map[ssa.Value]bool{}
+		var back func(v ssa.Value, d int)
+		back = func(v ssa.Value, d int) {
+			if v == nil || seen[v] || d > 40 {
+				return
+			}
+			seen[v] = true
+			switch x := v.(type) {
+			case *ssa.Phi:
+				for _, e := range x.Edges {
+					back(e, d+1)
+				}
+			case *ssa.Extract:
+				back(x.Tuple, d+1)
+			case *ssa.TypeAssert:
+				back(x.X, d+1)
+			case *ssa.MakeInterface:
+				back(x.X, d+1)
+			case *ssa.ChangeInterface:
+				back(x.X, d+1)
+			case *ssa.ChangeType:
+				back(x.X, d+1)
+			case *ssa.Lookup:
+				stale = append(stale, "a map entry ("+l.Prog.Pos(x.Pos())+")")
+			case *ssa.UnOp:
+				if x.Op != token.MUL {
+					return
+				}
+				switch a := x.X.(type) {
+				case *ssa.Alloc:
+					for _, ref := range *a.Referrers() {
+						if s2, ok := ref.(*ssa.Store); ok && s2.Addr == ssa.Value(a) {
+							back(s2.Val, d+1)
+						}
+					}
+				case *ssa.Global:
+					stale = append(stale, "the package-level variable "+a.Name())
+				case *ssa.IndexAddr:
+					stale = append(stale, "a table element ("+l.Prog.Pos(x.Pos())+")")
+				case *ssa.FieldAddr:
+					if f := fieldOf(a.X.Type(), a.Field); f != nil && !sx.All(sx.Origins(a.X), sx.IsParam(msg)) {
+						stale = append(stale, "the field "+f.Name())
+					}
+				}
+			case *ssa.Call:
+				cc := &x.Call
+				name := sx.StaticCalleeName(cc)
+				if strings.HasSuffix(name, "sync.Map.Load") || strings.HasSuffix(name, "sync.Map.LoadOrStore") || strings.HasSuffix(name, "sync.Map.Swap") || strings.HasSuffix(name, "sync.Pool.Get") {
+					stale = append(stale, "the result of "+name)
+				}
+			}
+		}
+		back(st.Val, 0)
+		key := fmt.Sprintf("gorums.(Codec).gorumsUnmarshal/decoded-object#%d", n)
+		l.Check(len(stale) == 0, "C13-D11", key, st.Pos(), "the decoded message is created by this decode",
+			"msg.Message can be "+strings.Join(dedupStrings(stale), ", ")+": an object that an earlier decode has already handed out. Its holder (a handler, a quorum function filling in an aggregate, the application annotating a result) writes to it, and every later frame that decodes to the shared object yields that content instead of what was encoded")
+	})
+	l.Floor("C13-D11", n, 1, "stores of the decoded message")
 }
